@@ -10,6 +10,11 @@ from .core import Outcome, ensure_repo_on_path, finish, pmap, Machinery, chunked
 from .pdgdata import tables as pdg_tables
 from .chainio import META_POOL
 
+# metadata whose values are the documented defaults or other "empty" values: a conjugate keeps them as they are
+EDGE_META = [{"model_params": None}, {"model": None, "model_params": None}, {"model": "PHSP", "model_params": None},
+             {"model": "", "model_params": ""}, {"model_params": []}, {"model": "SVS", "model_params": 0, "flag": False},
+             {"model_params": (1.0, 2.0)}, {"weight": 1, "on": True, "none": None}]
+
 PROP = "C04"
 
 
@@ -52,14 +57,19 @@ def build_fs(args):
         cc = dd.charge_conjugate(pdg) if rng.random() < 0.5 else dd.charge_conjugate(pdg_name=pdg)
         return {"kind": "fs", "cid": cid, "pdg": pdg, "fs": fs, "obs": {"fs": bag(cc), "len": len(cc)}}
     if kind == "mode":
-        meta = copy.deepcopy(rng.choice(META_POOL))
+        meta = copy.deepcopy(rng.choice(META_POOL + EDGE_META))
         bf = rng.choice([0.5, 1.0, 1e-9, 0.123456789])
         dm = DecayMode(bf, d, **copy.deepcopy(meta))
         before = copy.deepcopy(dm.metadata)
         cc = dm.charge_conjugate(pdg)
+        twice = cc.charge_conjugate(pdg)
+
+        def same(a, b):
+            # equal *and* of the same types all the way down (None is not '', 1 is not True, [] is not ())
+            return a == b and repr(a) == repr(b)
         return {"kind": "mode", "cid": cid, "pdg": pdg, "fs": fs,
-                "obs": {"fs": bag(cc.daughters), "bf_same": cc.bf == bf and dm.bf == bf,
-                        "meta_same": cc.metadata == before and dm.metadata == before}}
+                "obs": {"fs": bag(cc.daughters), "bf_same": cc.bf == bf and dm.bf == bf and type(cc.bf) is type(bf),
+                        "meta_same": same(cc.metadata, before) and same(dm.metadata, before) and same(twice.metadata, before)}}
     # table: the CDecay route for the same decay
     mother, mbar = kind
     flat = []
